@@ -184,6 +184,12 @@ def run_C05(ctx, rng, tier, res, known):
         cases += gens.gen_seams(rng, f)[::2]
         cases += gens.gen_bigint_ties(rng, f, 1200 if q else 30000)
         cases += _mod().cases_long(rng, "quick", f)[:: (6 if q else 1)]
+        fq = _mod().focus_q_from_tables()
+        if fq:
+            for line, fam in gens.gen_mp_near_halfway(rng, f, 40000, focus_q=fq):
+                t = line.split()
+                if int(t[2]) < 10 ** 19 and t[4] == "0":
+                    cases.append((gens.pf(f, t[2], "", int(t[3])), fam + ">pf"))
     impl, model = _mod().check_pf("C05", cases, ctx.cfgs, ctx.profiles, res, known)
     # cross-configuration equality (even where a spec mismatch was already reported)
     lines = [c[0].split(" ## ")[0] for c in cases]
@@ -513,6 +519,9 @@ def run_C12(ctx, rng, tier, res, known):
                             ok = len(parse_l(m.split()[0])) > 62 or xl == 0
                         if ok:
                             continue
+                        res.viol.append(("spurious-failure", dict(case=line, cfg=c, profile=p, impl=I, model=m[:200],
+                                                                  why="heap back-end reports failure although the result needs at most 62 limbs")))
+                        continue
                     res.drift.append(dict(case=line[:500], cfg=c, profile=p, impl=I[:300], model=m[:300]))
                 # predicate on the implementation's output: exact natural-number result
                 if s is not None and op not in ("compare", "hi64", "bit_length") and I not in ("none", "ctor-none"):
